@@ -4121,13 +4121,23 @@ impl CanonicalizeContext {
 	
 		let mut parsed_mrow = top_of_stack.mrow;
 		assert_eq!( name(&top_of_stack.mrow), "mrow");
+		let mut own_attrs = vec![];
 		if parsed_mrow.children().len() == 1 && is_ok_to_merge_child {
 			parsed_mrow = top_of_stack.remove_last_operand_from_mrow();
 			// was synthesized, but is really the original top level mrow
+			// the only child stands for the row: it keeps what it says itself (its id, notation, linethickness, form, ...),
+			// as when clean_mathml lifts an only child, and takes from the row what it does not say
+			own_attrs = parsed_mrow.attributes();
 		}
 	
 		parsed_mrow.remove_attribute(CHANGED_ATTR);
-		return Ok( add_attrs(parsed_mrow, &saved_mrow_attrs) );
+		let parsed_mrow = add_attrs(parsed_mrow, &saved_mrow_attrs);
+		for attr in own_attrs {
+			if attr.name().local_part() != CHANGED_ATTR {
+				parsed_mrow.set_attribute_value(attr.name(), attr.value());
+			}
+		}
+		return Ok( parsed_mrow );
 	}	
 }
 
